@@ -94,6 +94,9 @@ type Expect struct {
 	TicketLifetime time.Duration
 	RenewLifetime  time.Duration // 0: no rtime
 	NoAddresses    bool
+	// ExtraAddresses (NoAddresses false): addresses the configuration adds to the local ones; each has to be in the
+	// request, and every address in the request has to be well-formed for its type
+	ExtraAddresses []krbmsg.HostAddress
 	Skew           time.Duration
 	ClientName     []string
 }
@@ -319,6 +322,24 @@ func (k *KDC) checkCommon(kind string, req *krbmsg.KDCReq, wantOpts uint32, want
 	}
 	if e.NoAddresses && b.Addresses != nil {
 		k.violate("%s carries addresses although noaddresses is set", kind)
+	}
+	if !e.NoAddresses {
+		for _, a := range b.Addresses {
+			if a.Type == 2 && len(a.Addr) != 4 || a.Type == 24 && len(a.Addr) != 16 {
+				k.violate("%s addresses: an address of type %d has %d octets (%x)", kind, a.Type, len(a.Addr), a.Addr)
+			}
+		}
+		for _, x := range e.ExtraAddresses {
+			found := false
+			for _, a := range b.Addresses {
+				if a.Type == x.Type && bytes.Equal(a.Addr, x.Addr) {
+					found = true
+				}
+			}
+			if !found {
+				k.violate("%s addresses lack the configured extra address %d:%x", kind, x.Type, x.Addr)
+			}
+		}
 	}
 	if b.From != nil {
 		k.violate("%s carries a from time", kind)
